@@ -190,6 +190,16 @@ Measure(r, name, q) ==
     ELSE IF d[1].k = "real" THEN Real(MeasureReal(Freqs(r), [j \in 1..Len(d) |-> d[j].v], q))
     ELSE Cplx(<<MeasureReal(Freqs(r), [j \in 1..Len(d) |-> d[j].v[1]], q),
                 MeasureReal(Freqs(r), [j \in 1..Len(d) |-> d[j].v[2]], q)>>)
+(* Attributes whose values are transcendental (phases, square roots) are interpolated like every other: linearly between the   *)
+(* TABULATED values.  The model gives the bracketing bin and the weight; the harness applies them to the attribute's own      *)
+(* (separately checked) values.  A phase that wraps between two bins is interpolated through the wrap, not around the circle. *)
+MeasureWeight(r, q) ==
+    LET fq == Freqs(r)  n == Len(fq) IN
+    IF RLe(q, fq[1]) THEN [j |-> 1, w |-> <<0, 1>>]
+    ELSE IF RLe(fq[n], q) THEN [j |-> n, w |-> <<0, 1>>]
+    ELSE LET j == CHOOSE i \in 1..(n - 1) : RLe(fq[i], q) /\ RLt(q, fq[i + 1]) IN
+         [j |-> j, w |-> RDiv(RSub(q, fq[j]), RSub(fq[j + 1], fq[j]))]
+TabulatedNames == {"cf_rad", "cf_deg", "cf", "asd", "Hxy_rad_error"}
 (* s2 must be the same in all bins for a complex interpolation to be expressible: enforced by the scope *)
 
 (* DataFrame export: the columns are exactly the names whose value is a per-bin array *)
@@ -251,7 +261,9 @@ HistResults == <<
     [iscsd |-> FALSE, fs |-> <<2, 1>>, bins |-> <<AB(1, <<1, 2>>, 1), AB(2, <<3, 1>>, 5), AB(3, <<1, 1>>, 5)>>],
     [iscsd |-> TRUE,  fs |-> <<2, 1>>, bins |-> <<CB(1, <<1, 1>>, <<1, 1>>, <<5, 6>>, U3, 5)>>],
     [iscsd |-> TRUE,  fs |-> <<2, 1>>, bins |-> <<CB(1, <<1, 1>>, <<1, 1>>, <<3, 4>>, U4, 5), CB(2, <<1, 1>>, <<2, 1>>, <<1, 2>>, U5, 5), CB(3, <<3, 1>>, <<1, 1>>, <<7, 8>>, U4, 2)>>],
-    [iscsd |-> FALSE, fs |-> <<2, 1>>, bins |-> <<AB(1, <<3, 1>>, 2)>>] >>
+    [iscsd |-> FALSE, fs |-> <<2, 1>>, bins |-> <<AB(1, <<3, 1>>, 2)>>],
+    \* two bins (a length-2 result: any length-2 helper array must not be mistaken for a per-bin column), phase wrapping between them
+    [iscsd |-> TRUE,  fs |-> <<2, 1>>, bins |-> <<CB(1, <<1, 1>>, <<1, 1>>, <<3, 4>>, U4, 5), CB(2, <<1, 1>>, <<2, 1>>, <<1, 2>>, U5, 2)>>] >>
 HistInit == \E i \in 1..Len(HistResults) : rid = i /\ res = HistResults[i]
 
 Init == /\ (IF Scope = "grid" THEN (GridInit /\ rid = 0) ELSE HistInit)
@@ -360,7 +372,8 @@ Case == [iscsd |-> res.iscsd, fs |-> res.fs, bins |-> res.bins,
          frame |-> FrameColumns(res),
          measure |-> [nm \in {"Gxx", "Gxy", "coh", "asd", "Hxy", "psd", "navg"} |->
                              IF Def(res, nm)[1].k \in MeasurableKinds
-                             THEN {<<q, Measure(res, nm, q)>> : q \in Queries(res)} ELSE {}]]
+                             THEN {<<q, Measure(res, nm, q)>> : q \in Queries(res)} ELSE {}],
+         weights |-> {<<q, MeasureWeight(res, q)>> : q \in Queries(res)}]
 EmitGrid == (Scope = "grid" /\ EmitCases) => PrintT(ToJson(Case))
 EmitHist == /\ (Scope = "hist" /\ EmitCases /\ Len(hist) = 0) => PrintT(ToJson([kind |-> "res", rid |-> rid, res |-> Case]))
             /\ (Scope = "hist" /\ EmitCases /\ Len(hist) = MaxHist) => PrintT(ToJson([kind |-> "hist", rid |-> rid, hist |-> hist, cache |-> cache]))
